@@ -430,7 +430,7 @@ type c25Op struct {
 
 func (o c25Op) String() string {
 	switch o.Kind {
-	case "req", "downflap":
+	case "req", "downflap", "downflaprestart":
 		return fmt.Sprintf("%s(tx=%v %s)", o.Kind, o.Tx, strings.Join(o.Stmts, "; "))
 	case "failn":
 		return fmt.Sprintf("failn(%d)", o.N)
@@ -443,12 +443,12 @@ func (o c25Op) String() string {
 func c25GenOps(rt *rapid.T) []c25Op {
 	n := rapid.IntRange(3, vstat.Scale(16, 40)).Draw(rt, "nOps")
 	serial := 0
-	kinds := []string{"req", "req", "req", "req", "req", "req", "snap", "down", "up", "failn", "flap", "downflap", "restart"}
+	kinds := []string{"req", "req", "req", "req", "req", "req", "snap", "down", "up", "failn", "flap", "downflap", "downflaprestart", "restart"}
 	var ops []c25Op
 	for i := 0; i < n; i++ {
 		o := c25Op{Kind: rapid.SampledFrom(kinds).Draw(rt, "kind")}
 		switch o.Kind {
-		case "req", "downflap":
+		case "req", "downflap", "downflaprestart":
 			k := rapid.SampledFrom([]int{1, 1, 2, 2, 3, 4}).Draw(rt, "nStmts")
 			for j := 0; j < k; j++ {
 				o.Stmts = append(o.Stmts, c25GenStmt(rt, &serial))
@@ -468,7 +468,7 @@ func c25GenOps(rt *rapid.T) []c25Op {
 
 func TestVerif_C25_Service(t *testing.T) {
 	rec := vstat.New(t, "C25", "service",
-		"operation sequences (3..16 ops quick, ..40 thorough) on a real Store + cdc.Service + recording HTTP endpoint: Execute requests of 1..4 statements (insert/multi-row insert/update/delete on t1,t2, plus failing statements at any position: PK/UNIQUE/NOT NULL/CHECK violations, partially applied multi-row insert, syntax error, missing table) with/without transaction, user snapshots, endpoint outages (503 / dropped connection / fail next n), leadership flaps, node restarts; config batch size {1,2,3,10} x batch delay {5,40ms} x filter {none,^t1$}; non-trivial = at least one multi-statement request and at least one fault (outage, flap, restart or snapshot); distinct by config+op sequence")
+		"operation sequences (3..16 ops quick, ..40 thorough) on a real Store + cdc.Service + recording HTTP endpoint: Execute requests of 1..4 statements (insert/multi-row insert/update/delete on t1,t2, plus failing statements at any position: PK/UNIQUE/NOT NULL/CHECK violations, partially applied multi-row insert, syntax error, missing table) with/without transaction, user snapshots, endpoint outages (503 / dropped connection / fail next n), leadership flaps (also in the middle of an outage, also followed by a restart), node restarts; the high watermark is checked after every step against what the endpoint acknowledged; config batch size {1,2,3,10} x batch delay {5,40ms} x filter {none,^t1$}; non-trivial = at least one multi-statement request and at least one fault (outage, flap, restart or snapshot); distinct by config+op sequence")
 	rapid.Check(t, func(rt *rapid.T) {
 		cf := c25Conf{
 			BatchSz:    rapid.SampledFrom([]int{1, 2, 3, 10}).Draw(rt, "batchSz"),
@@ -580,6 +580,55 @@ func TestVerif_C25_Service(t *testing.T) {
 			return true
 		}
 
+		hwmStart := n.svc.HighWatermark()
+		doRestart := func() {
+			faults = true
+			n.close()
+			tenure++
+			ep.setTenure(tenure)
+			var err error
+			n, err = c25Open(dir, ep.srv.URL, cf)
+			if err != nil {
+				t.Logf("infrastructure: reopen: %v", err)
+				n, err = c25Open(filepath.Join(dir, "spare"), ep.srv.URL, cf)
+				if err != nil {
+					t.Fatalf("harness: cannot open any node: %v", err)
+				}
+				rt.Skip("node did not reopen")
+			}
+			hwmStart = n.svc.HighWatermark()
+		}
+		// Direct invariant: the high watermark only ever moves to the index of a batch
+		// the endpoint has acknowledged. The endpoint records a delivery before it
+		// answers 200 and the service moves the watermark only after the answer, so at
+		// every instant: watermark <= max(value when this incarnation of the service
+		// started, highest acknowledged message index). (The start value is the key of
+		// the oldest queued batch minus one; it may lie above indexes that travel
+		// inside that batch, so it is taken as given.)
+		hwmViolated := false
+		checkHWM := func(when string) {
+			if hwmViolated {
+				return
+			}
+			hw := n.svc.HighWatermark()
+			bound := hwmStart
+			ds := ep.snapshot()
+			for _, d := range ds {
+				if d.Msg.Index > bound {
+					bound = d.Msg.Index
+				}
+			}
+			if hw <= bound {
+				return
+			}
+			hwmViolated = true
+			sig, what := "C25/high-watermark-beyond-acknowledged", "the high watermark moves to an index the endpoint never acknowledged"
+			if rec.KnownHit(sig, what) {
+				return
+			}
+			rt.Fatalf("%s", rec.Violation(sig, "%s: high watermark is %d, but the highest index the endpoint acknowledged is %d (watermark when this service incarnation started: %d)\nconfig %+v history:\n  %s\ndeliveries: %s",
+				when, hw, bound, hwmStart, cf, strings.Join(trace, "\n  "), c25Render(ds)))
+		}
 		doFlap := func() {
 			faults = true
 			ep.mu.Lock()
@@ -660,19 +709,28 @@ func TestVerif_C25_Service(t *testing.T) {
 				time.Sleep(cf.BatchDelay + 30*time.Millisecond)
 				doFlap()
 			case "restart":
-				faults = true
-				n.close()
-				tenure++
-				ep.setTenure(tenure)
-				n, err = c25Open(dir, ep.srv.URL, cf)
-				if err != nil {
-					t.Logf("infrastructure: reopen: %v", err)
-					n, err = c25Open(filepath.Join(dir, "spare"), ep.srv.URL, cf)
-					if err != nil {
-						t.Fatalf("harness: cannot open any node: %v", err)
-					}
-					rt.Skip("node did not reopen")
+				doRestart()
+			case "downflaprestart":
+				// as downflap, then the node leads again for several high-watermark
+				// intervals (the watermark is broadcast and the queue pruned), then restarts
+				ep.mu.Lock()
+				ep.down, ep.hang = true, false
+				ep.mu.Unlock()
+				if len(o.Stmts) > 1 {
+					multi = true
 				}
+				if !doReq(o.Stmts, o.Tx) {
+					rt.Skip("execute failed")
+				}
+				time.Sleep(cf.BatchDelay + 30*time.Millisecond)
+				doFlap()
+				time.Sleep(120 * time.Millisecond)
+				checkHWM("after flap during outage")
+				doRestart()
+			}
+			checkHWM("after " + o.Kind)
+			if hwmViolated {
+				return
 			}
 		}
 		// the endpoint comes back; a sentinel marks the end of the history
